@@ -16,7 +16,7 @@ from ..term import strip_ansi
 
 PROP = "C20"
 LEVEL = "fault_enumeration"
-RUNS = {"quick": 2500, "thorough": 120000}
+RUNS = {"quick": 2500, "thorough": 80000}
 OPS_KEYS = ()
 INFO = {
     "rule": "seeded workloads: a generated module (call chain depth 1..60, self-recursion, raise on the "
